@@ -29,3 +29,6 @@ pub use crate::common::datetime_utils::{
 
 #[cfg(test)]
 mod tests {}
+
+#[cfg(rnacos_verif)]
+pub mod verif_hooks;
